@@ -1,27 +1,14 @@
 use grafeo_engine::GrafeoDB;
-fn show(s: &grafeo_engine::Session, q: &str) {
-    match s.execute(q) {
-        Ok(r) => println!("GQL  {q}\n   -> cols={:?} rows={:?}", r.columns, r.rows),
-        Err(e) => println!("GQL  {q}\n   -> ERR {e}"),
-    }
-}
-fn showc(s: &grafeo_engine::Session, q: &str) {
-    match s.execute_cypher(q) {
-        Ok(r) => println!("CYP  {q}\n   -> cols={:?} rows={:?}", r.columns, r.rows),
-        Err(e) => println!("CYP  {q}\n   -> ERR {e}"),
-    }
-}
 fn main() {
     let db = GrafeoDB::new_in_memory();
-    db.create_property_index("x");
     let s = db.session();
-    show(&s, "INSERT (:A {x: 0})");
-    show(&s, "INSERT (:A {x: 0})");
-    show(&s, "MATCH (n) WHERE id(n) = 0 DETACH DELETE n");
-    show(&s, "MATCH (n) WHERE n.x = 0 RETURN id(n)");
-    show(&s, "MATCH (n) RETURN id(n)");
-    println!("{:?}", db.find_nodes_by_property("x", &grafeo_common::types::Value::Int64(0)));
-    db.delete_node(grafeo_common::types::NodeId::new(1));
-    show(&s, "MATCH (n) WHERE n.x = 0 RETURN id(n)");
-    println!("{:?}", db.find_nodes_by_property("x", &grafeo_common::types::Value::Int64(0)));
+    for i in 0..13 { s.execute_sparql(&format!("INSERT DATA {{ <http://a/s{}> <http://a/p{}> <http://a/o{}> }}", i%4, i%3, i)).unwrap(); }
+    for n in [1000usize, 2000, 4000] {
+        let mut q = String::from("SELECT ?s WHERE { ?s ?p ?o ");
+        for _ in 0..n { q.push_str("; ?p ?o "); }
+        q.push('}');
+        let t = std::time::Instant::now();
+        let r = s.execute_sparql(&q);
+        println!("n={n} {:?} rows={:?}", t.elapsed(), r.map(|r| r.rows.len()).map_err(|e| e.to_string()));
+    }
 }
